@@ -12,10 +12,10 @@ The canary rig (`harness/buffers.go`) is the correspondence: it calls the real f
 arguments inside canary-filled arrays and supplies the concrete failing call when `lib_safe` breaks.
 -/
 import BtcVerif.Gen.BufferProgs
-import BtcVerif.Proofs.SliceHeap
+import BtcVerif.Proofs.SliceHeapSound
 
 namespace BtcVerif.Props.C18
-open BtcVerif.Model.SliceHeap BtcVerif.Gen
+open BtcVerif.Model.SliceHeap BtcVerif.Gen BtcVerif.Proofs.SliceHeap
 
 /-- not on the documented in-place allow-list -/
 def notAllowed (f : FuncIR) : Bool := !f.allow
@@ -41,6 +41,155 @@ theorem lib_consistent : bufferProgs.all (bodyOk bufferProgs) = true := by
 theorem allow_list_exact :
     (bufferProgs.filter (·.allow)).map (·.name) = bufferAllow ∧
     bufferAllow = ["bhash.(*MultiHasher).Sum", "common.ReverseBytesInPlace"] := by
+  decide +kernel
+
+/-- outside the allow-list no function of the regenerated IR — exported or internal — has a
+parameter in its `touches` summary (evaluated by the kernel) -/
+theorem lib_touches_nothing : (bufferProgs.filter notAllowed).all (fun f => f.touches.isEmpty) = true := by
+  decide +kernel
+
+/-- **The explicit assumption ledger.**  A slice expression `x[lo:hi]` does not panic when
+`len(x) < hi ≤ cap(x)`: it silently makes spare capacity visible.  Where `hi ≤ len(x)` follows from the
+shape of the code (no `hi`, `hi = len(x)`, a constant below a dominating `len` guard, an array) the
+extractor emits an in-window `derive`; where `hi` comes from `cap()` it emits `beyond`, which `check`
+rejects.  In the remaining places the bound depends on *values*; the extractor translates them as
+in-window reslices and lists them here, and this theorem pins the list, so that a new or vanished site
+on caller-owned memory breaks the proof instead of passing silently.  Each site is discharged elsewhere:
+* `der.DecodeSignature` (2): `rPos+2+rSize` and `sPos+2+sSize` are below `len` by the length tests
+  `rSize < encodedSize-5` and `sSize+rSize+7 = encodedSize` — C11 (`BtcVerif.Props.C11.der_no_panic`: the DER model
+  bounds-checks every slice against the *length*, so the no-panic theorem is exactly `hi ≤ len`);
+* `script.DecodeP2PKH/P2SH/P2WPKH/P2WSH` (1 each): constant bounds behind `IsP2xx(script)`, which tests
+  `len(script) == 25 / 23 / 22 / 34` — C12 (`is_iff_template_p2pkh/p2sh/p2wpkh/p2wsh`);
+* `script.StripOpCode` (1): `script[start:end]` with `end = len(script) - r.Len()` — C12 (`strip_no_panic`, `strip_spec`).
+The canary rig exercises all of them: on the exact-capacity private copies a bound above `len` panics
+while the canary copy succeeds, which is reported as a result difference. -/
+theorem bound_assumptions_pinned :
+    bufferBoundAssumptions =
+      [("der.DecodeSignature", 2), ("script.DecodeP2PKH", 1), ("script.DecodeP2SH", 1),
+       ("script.DecodeP2WPKH", 1), ("script.DecodeP2WSH", 1), ("script.StripOpCode", 1)] := by
+  decide +kernel
+
+/-! ## The negative witness -/
+
+/-- **Why `append` onto a caller's slice is rejected**: for every heap and every well-formed slice with
+a byte of spare capacity, `append(s, b)` is done in place and overwrites the byte behind the visible
+window (for every `b` different from what is there) — so for every argument value there is a caller
+(a capacity) whose memory the call corrupts.  `append_no_spare_safe` is the other half: with
+`cap = len` (what hex-decoded test fixtures have, and what `s[:n:n]` enforces) nothing is written. -/
+theorem append_in_place_hazard (h : Heap) (s : Slice) (b : UInt8) (arr : List UInt8)
+    (harr : h[s.arr]? = some arr) (hin : s.off + s.cap ≤ arr.length) (hspare : s.len < s.cap)
+    (hb : arr[s.off + s.len]? ≠ some b) :
+    (goAppend h s [b]).1[s.arr]? = some (arr.set (s.off + s.len) b) ∧
+    (goAppend h s [b]).1[s.arr]? ≠ h[s.arr]? ∧
+    (goAppend h s [b]).2 = { s with len := s.len + 1 } :=
+  BtcVerif.Proofs.SliceHeap.append_in_place_hazard h s b arr harr hin hspare hb
+
+theorem append_no_spare_safe (h : Heap) (s : Slice) (bs : List UInt8) (hfull : s.cap = s.len) (a : Nat)
+    (ha : a < h.length) : (goAppend h s bs).1[a]? = h[a]? :=
+  BtcVerif.Proofs.SliceHeap.append_no_spare_safe h s bs hfull a ha
+
+/-- the hypotheses of the hazard are satisfiable: the master key `I[:32]` of a 64-byte HMAC output,
+whose spare capacity is the chain code; appending the WIF compression flag 0x01 overwrites
+`chainCode[0]` -/
+example :
+    let I : List UInt8 := List.replicate 64 0xAA
+    let h : Heap := [I]
+    let masterKey : Slice := ⟨0, 0, 32, 64⟩
+    (goAppend h masterKey [0x01]).1[0]? = some (I.set 32 0x01) ∧ (goAppend h masterKey [0x01]).1[0]? ≠ h[0]? := by
+  intro I h masterKey
+  have := append_in_place_hazard h masterKey 0x01 I rfl (by decide) (by decide) (by decide)
+  exact ⟨this.1, this.2.1⟩
+
+/-! ## Soundness of the checker -/
+
+/-- **`check_sound`, frame part (complete).**  Let `prog` be consistent (`lib_consistent` for the
+regenerated IR) and `f ∈ prog` an exported function with `check prog f = true`.  Then for every trace
+`t` (every order / repetition of the statements of `f` and of its callees, every dynamic index, bound,
+byte and appended length), every heap `h` and every assignment `args` of memory to the parameters — any
+offsets, lengths and capacities, arguments adjacent in one array or overlapping or identical — every
+array that exists at the call and is addressed by a caller-owned byte-slice parameter (`f.guarded`) and
+by no other touched parameter is the same list of bytes afterwards: the visible window, the spare
+capacity behind it and the bytes in front of it. -/
+theorem check_sound_frame (prog : List FuncIR) (hprog : prog.all (bodyOk prog) = true) (f : FuncIR)
+    (hf : f ∈ prog) (hc : check prog f = true) (hapi : f.api = true)
+    (t : Trace) (h : Heap) (args : Env) (a : Nat) (ha : a < h.length)
+    (hother : ∀ j ∈ f.touches, j ∉ f.guarded → ¬ Addresses args j a) :
+    (runFn prog f t h args).1[a]? = h[a]? := by
+  apply runFn_frame prog hprog f hf t h args a ha
+  intro j hj
+  by_cases hg : j ∈ f.guarded
+  · exact absurd hj (check_guarded prog f hc hapi j hg)
+  · exact hother j hj hg
+
+/-- the general form: a function changes an existing array only if one of the parameters in its
+`touches` summary addresses it (this is what makes the callee summaries used by `check` sound) -/
+theorem check_sound_summary (prog : List FuncIR) (hprog : prog.all (bodyOk prog) = true) (f : FuncIR)
+    (hf : f ∈ prog) (t : Trace) (h : Heap) (args : Env) (a : Nat) (ha : a < h.length)
+    (hnt : ∀ j ∈ f.touches, ¬ Addresses args j a) :
+    (runFn prog f t h args).1[a]? = h[a]? :=
+  runFn_frame prog hprog f hf t h args a ha hnt
+
+/-- results live in memory allocated during the call or in the arrays of the parameters named by the
+`retD` / `retC` summaries (`retAlias`: returning a sub-slice of an argument is not a modification; the
+functions that do are listed in the evidence) -/
+theorem check_sound_results (prog : List FuncIR) (hprog : prog.all (bodyOk prog) = true) (f : FuncIR)
+    (hf : f ∈ prog) (t : Trace) (h : Heap) (args : Env) :
+    (∀ s ∈ (runFn prog f t h args).2.1, h.length ≤ s.arr ∨ ∃ j ∈ f.retD, Addresses args j s.arr) ∧
+    (∀ s ∈ (runFn prog f t h args).2.2.1, h.length ≤ s.arr ∨ ∃ j ∈ f.retC, Addresses args j s.arr) :=
+  runFn_results prog hprog f hf t h args
+
+/-- **`check_sound`, "the result depends only on the visible argument bytes" — PARTIAL.**
+What is proved: a function whose summary touches nothing (every function outside the allow-list:
+`lib_touches_nothing`) never holds, in any register at the end of any trace — and every prefix of a trace
+is a trace, so at any point of any execution — and never returns, a slice of a caller's array that is not
+inside the visible window `[off, off+len)` of one of the argument slices named by its tag.  A Go read
+`x[i]` requires `i < len(x)`, a reslice beyond `len` is the rejected `beyond` statement and `append` onto
+caller memory is rejected, so every byte of caller memory the function can read is a visible byte of an
+argument; with the frame part (nothing is written, so sharing between arguments is unobservable) the
+outcome cannot depend on spare capacity, neighbouring bytes or overlaps.
+What is missing (hence `_partial`): the IR has no data flow — values come from the trace — so the
+statement is the *absence of any access path* to non-visible caller memory, not an equation between two
+runs on heaps that agree on the visible bytes; slice expressions whose bound depends on values are
+in-window by the pinned assumptions (`bound_assumptions_pinned`); callee registers are covered by
+applying the theorem to the callee, whose arguments lie inside the caller's windows by this theorem.
+The canary rig checks the equation itself on the real code (results on canary-embedded arguments vs
+private exact-capacity copies). -/
+theorem check_sound_visible_partial (prog : List FuncIR) (hprog : prog.all (bodyOk prog) = true) (f : FuncIR)
+    (hf : f ∈ prog) (hto : f.touches = []) (t : Trace) (h : Heap) (args : Env) :
+    (∀ r s, s ∈ (runFn prog f t h args).2.2.2 r → InWindows args h.length (tagOf f r) s) ∧
+    (∀ s ∈ (runFn prog f t h args).2.1, InWindows args h.length f.retD s) ∧
+    (∀ s ∈ (runFn prog f t h args).2.2.1, InWindows args h.length f.retC s) :=
+  runFn_windows prog hprog f hf hto t h args
+
+/-- **The library, concretely.**  For every function of the IR regenerated from the current source
+that is not on the allow-list, every execution from every heap with every argument layout leaves
+*every* array that existed at the call unchanged. -/
+theorem lib_frame (f : FuncIR) (hf : f ∈ bufferProgs) (hna : f.allow = false)
+    (t : Trace) (h : Heap) (args : Env) (a : Nat) (ha : a < h.length) :
+    (runFn bufferProgs f t h args).1[a]? = h[a]? := by
+  apply runFn_frame_all bufferProgs lib_consistent f hf _ t h args a ha
+  have := lib_touches_nothing
+  rw [List.all_eq_true] at this
+  have hx := this f (by simp [notAllowed, hf, hna])
+  simpa using hx
+
+/-- the library, concretely (windows): no function outside the allow-list ever holds or returns a view
+of caller memory outside the visible windows of its arguments -/
+theorem lib_visible_partial (f : FuncIR) (hf : f ∈ bufferProgs) (hna : f.allow = false)
+    (t : Trace) (h : Heap) (args : Env) :
+    (∀ r s, s ∈ (runFn bufferProgs f t h args).2.2.2 r → InWindows args h.length (tagOf f r) s) ∧
+    (∀ s ∈ (runFn bufferProgs f t h args).2.1, InWindows args h.length f.retD s) ∧
+    (∀ s ∈ (runFn bufferProgs f t h args).2.2.1, InWindows args h.length f.retC s) := by
+  apply runFn_windows bufferProgs lib_consistent f hf _ t h args
+  have := lib_touches_nothing
+  rw [List.all_eq_true] at this
+  have hx := this f (by simp [notAllowed, hf, hna])
+  simpa using hx
+
+/-- the hypotheses are satisfiable on the regenerated IR: `wif.Encode` is in the program, is exported,
+not allow-listed, has its key parameter guarded, and passes the check -/
+example : ∃ f ∈ bufferProgs, f.name = "wif.Encode" ∧ f.api = true ∧ f.allow = false ∧ f.guarded = [0, 1] ∧
+    check bufferProgs f = true := by
   decide +kernel
 
 end BtcVerif.Props.C18
